@@ -101,6 +101,7 @@ TNext == TReset \/ TAdv \/ TFire \/ IFire \/ TRespBegin \/ TRespEnd \/ IStep \/ 
 TraceSpec == TInit /\ [][TNext]_tvars
 
 POk == ok
-HWM == Mark(l)
+\* record the high-water mark; once the whole trace has been explained (depth-first search) nothing more is explored
+HWM == Mark(l) /\ TLCGetOrDefault(1, 0) < TraceLen
 Post == Report
 ================================================================================
